@@ -713,7 +713,34 @@ def monitorC15 (cx : Ctx) : List Finding := Id.run do
         if (x - lead).natAbs > 2 then
           out := mkF cx "C15" "steady-lead" a.sid 0 s!"session {a.sid} leads by {lead} frames but frames_ahead says {x}" :: out
     | _, _ => pure ()
-  return out.reverse
+  -- ping: on the lossless fixed-latency links of the `timesync` family the reported ping is the
+  -- link's round trip (2 × latency) plus at most what the two sides add by handling packets only when
+  -- they poll (one tick each; the generator's network moves packets once per step; milliseconds
+  -- are truncated twice)
+  if (cx.sc.header.splitOn "family: \"timesync\"").length > 1 && cx.p2p.length == 2 && !cx.anyDisconnect then
+    let hnat (key : String) : Nat :=
+      match cx.sc.header.splitOn (key ++ ": ") with
+      | _ :: rest :: _ => ((rest.takeWhile Char.isDigit).toString.toNat?).getD 0
+      | _ => 0
+    let lat := hnat "latency_us"
+    let stepUs := hnat "step_us"
+    for s in cx.p2p do
+      let fps := s.nat "fps" 60
+      let tickUs := 1000000 / (if fps == 0 then 60 else fps)
+      let lo : Int := ((2 * lat) / 1000 : Nat) - 1
+      let hi : Int := ((2 * lat + 2 * stepUs + 2 * tickUs) / 1000 : Nat) + 2
+      for c in cx.sc.calls do
+        if c.sid != s.sid || c.call.headD "" != "stats" then continue
+        match words c.result with
+        | ["ok", ping, _, _, _] =>
+          match ping.toInt? with
+          | some pg =>
+            if pg < lo || pg > hi then
+              out := mkF cx "C15" "ping" s.sid c.lineNo
+                s!"network_stats reports ping {pg} ms; the link's round trip is {2 * lat / 1000} ms (one-way latency {lat} µs, tick {tickUs} µs): expected {lo}..{hi}" :: out
+          | none => pure ()
+        | _ => pure ()
+  return (out.reverse.foldl (fun acc f => if f.clause == "ping" && acc.any (fun g => g.clause == "ping" && g.sid == f.sid) then acc else acc ++ [f]) [])
 
 /-! ### C18 — internal buffers stay bounded -/
 
